@@ -424,7 +424,9 @@ class FactoryFunctorPool(FunctorPool):
             self.verbose = verbose
 
         def run(self) -> None:
-            while not self.stop_event.is_set():
+            while True:
+                # the only way out is the None token from the stop method, so the token is always consumed
+                # and all workers that were retired before the stop are replaced
                 replace_id = self.pool._replace_queue.get()
                 if replace_id is None:
                     break
